@@ -622,9 +622,178 @@ def text_rule(ctx):
     return obs
 
 
+def concat_rule(ctx):
+    """C04.text/concat: every operand of the `+` chains the parser builds for mixed text is a string literal or is wrapped in
+    ToStringWithoutUndefined (so null/undefined render as empty) - a bare binding may only stand alone."""
+    ob = ctx.ob
+    tc = ctx.tc
+    vp = [g for g in tc.fns if g.base == "Value" and g.name == "parse_until_before" and g.body]
+    if not vp:
+        return [ob("C04.text/concat", False, "parse/tag.rs", "Value::parse_until_before not found")]
+    g = vp[0]
+    pm = sir.parent_map(g.node)
+    obs = []
+    k = 0
+
+    def binding_before(name, node):
+        """nearest `let name = init` preceding `node` in an enclosing block"""
+        cur = node
+        while id(cur) in pm:
+            par = pm[id(cur)]
+            if par.get("k") == "block":
+                idx = None
+                for i, st in enumerate(par["stmts"]):
+                    if st is cur or (st.get("k") == "expr" and st["e"] is cur) or (st.get("k") == "local" and st.get("init") is cur):
+                        idx = i
+                if idx is not None:
+                    for st in reversed(par["stmts"][:idx]):
+                        if st.get("k") == "local" and st["pat"].get("name") == name:
+                            return st.get("init")
+            cur = par
+        return None
+
+    def wrapped(e, depth=0):
+        if e is None or depth > 6:
+            return False, "unknown"
+        e0 = e
+        if e.get("k") == "call":
+            cn = sir.call_name(e)
+            if cn == "wrap_to_string":
+                return True, "wrap_to_string(..)"
+            if cn == "new" and e["args"]:
+                a = e["args"][0]
+                if a.get("k") == "struct" and a["segs"][-1] in ("LitStr", "ToStringWithoutUndefined"):
+                    return True, a["segs"][-1]
+                return wrapped(a, depth + 1)
+        if e.get("k") == "struct" and e["segs"][-1] in ("LitStr", "ToStringWithoutUndefined"):
+            return True, e["segs"][-1]
+        if e.get("k") == "if":
+            c = sir.expr_str(e["cond"])
+            t = e["then"]["stmts"][-1]["e"] if e["then"]["stmts"] else None
+            el = e.get("else")
+            el = el["stmts"][-1]["e"] if el is not None and el.get("k") == "block" and el["stmts"] else el
+            wt, _ = wrapped(t, depth + 1) if t is not None else (False, "")
+            we, _ = wrapped(el, depth + 1) if el is not None else (False, "")
+            # `if has_wrap_to_string { x } else { wrap_to_string(x) }` : x is already a wrapped chain when the flag is set
+            if c == "has_wrap_to_string" and we and t is not None and t.get("k") == "path":
+                return True, "already wrapped chain or wrap_to_string(..)"
+            if c == "!has_wrap_to_string" and wt and el is not None and el.get("k") == "path":
+                return True, "already wrapped chain or wrap_to_string(..)"
+            return (wt and we), "if/else"
+        if e.get("k") == "path" and len(e["segs"]) == 1:
+            init = binding_before(e["s"], e)
+            if init is not None and init is not e0:
+                return wrapped(init, depth + 1)
+            return False, "bare `%s`" % e["s"]
+        return False, sir.expr_str(e)[:40]
+    for n in sir.walk(g.node, into_items=True):
+        if n.get("k") == "struct" and n["segs"][-1] == "Plus":
+            for fl in n["fields"]:
+                if fl["name"] not in ("left", "right"):
+                    continue
+                k += 1
+                okk, why = wrapped(fl["e"])
+                obs.append(ob("C04.text/concat/%d-%s" % ((k + 1) // 2, fl["name"]), okk, ctx.where(g),
+                              "operand `%s` of a text concatenation is %s" % (fl["name"], why) + ("" if okk else ": a null/undefined binding would render as \"null\"/\"undefined\""),
+                              witness=None if okk else "<div>{{a}}{{b}}</div> with a undefined renders \"undefinedB\""))
+    if k < 6:
+        obs.append(ob("C04.floor/concat", False, ctx.where(g), "only %d concatenation operands found (floor 6)" % k))
+    return obs
+
+
+def child_lists_rule(ctx):
+    """C04.proto/child-lists: the node lists scanned to choose the callback parameters are the node lists emitted inside the callback"""
+    ob = ctx.ob
+    tc = ctx.tc
+    obs = []
+    n = 0
+    for f in tc.fns:
+        if not f.body or "proc_gen" not in f.module or "tag" not in f.module:
+            continue
+        for c in sir.walk(f.body):
+            if c.get("k") == "call" and (sir.call_path(c) or "").endswith("to_proc_gen_define_children") and len(c["args"]) >= 4:
+                n += 1
+                scanned = roots_of(c["args"][0], f)
+                emitted = set()
+                clo = [a for a in c["args"] if a.get("k") == "closure"]
+                for cl in clo:
+                    for x in sir.walk(cl["body"]):
+                        if x.get("k") == "call" and (sir.call_path(x) or "").endswith("to_proc_gen_define_children_content") and x["args"]:
+                            emitted |= roots_of(x["args"][0], f, at=x)
+                missing = emitted - scanned
+                obs.append(ob("C04.proto/child-lists/%s#%d" % (f.qual, n), not missing and bool(emitted), ctx.where(f),
+                              "callback parameters are chosen from %s; the callback emits %s" % (sorted(scanned), sorted(emitted)) + ("" if not missing else ": nodes of %s can call a creator that is not among the parameters" % sorted(missing)),
+                              witness=None if not missing else "<block wx:if=\"{{c}}\">x</block><div wx:else/> : the else branch calls E(), which the branch function does not receive"))
+    if n < 4:
+        obs.append(ob("C04.floor/child-lists", False, "proc_gen/tag.rs", "only %d children definitions found (floor 4)" % n))
+    return obs
+
+
+_scopes = {}
+KINDS = ("@Normal", "@Pure", "@For", "@If", "@Slot", "@TemplateRef", "@Include")
+
+
+def roots_of(e, f, at=None, depth=0, seen=None):
+    """fields of the matched ElementKind (children, branches, else_branch, ..) an expression is derived from; names are
+    resolved lexically (rules.c02.FnScope) so that equally named loop variables of different loops are kept apart."""
+    from rules.c02 import FnScope
+    if id(f) not in _scopes:
+        _scopes[id(f)] = FnScope(f.node, [])
+    sc = _scopes[id(f)]
+    seen = seen if seen is not None else set()
+    out = set()
+    if depth > 10:
+        return out
+    for x in sir.walk(e):
+        if x.get("k") != "path" or len(x["segs"]) != 1:
+            continue
+        nm = x["s"]
+        r = sc.resolve(nm, x)
+        if r is None:
+            continue
+        key = (nm, id(r[3]))
+        if key in seen:
+            continue
+        seen.add(key)
+        how = r[0]
+        if how == "match":
+            path = r[2]
+            if any(p in KINDS for p in path) and path and not path[-1].startswith("@"):
+                out.add([p for p in path if not p.startswith("@")][0])
+            elif r[1] is not None:
+                out |= roots_of(r[1], f, depth=depth + 1, seen=seen)
+        elif how == "let":
+            if r[1] is not None:
+                out |= roots_of(r[1], f, depth=depth + 1, seen=seen)
+            st = r[3]
+            if st.get("k") == "local" and st["pat"].get("k") == "p_ident" and st["pat"].get("mut"):
+                for n in sir.walk(f.body):
+                    if n.get("k") == "assign" and sir.expr_str(n["l"]) == nm:
+                        out |= roots_of(n["r"], f, depth=depth + 1, seen=seen)
+        elif how == "for":
+            out |= roots_of(r[1], f, depth=depth + 1, seen=seen)
+        elif how in ("closure", "param") and nm not in ("w", "scopes", "bmc", "group", "cur_path", "var_slot_map", "args"):
+            out.add(nm)
+    return out
+
+
 def run(ctx):
     obs = proto_rule(ctx)
+    obs += child_lists_rule(ctx)
     obs += family_rule(ctx)
     obs += branch_rule(ctx)
     obs += text_rule(ctx)
+    obs += concat_rule(ctx)
+    from rules.c12 import check_entities
+    for x in check_entities(ctx):
+        x = dict(x)
+        x["key"] = x["key"].replace("C12.entity", "C04.entities")
+        obs.append(x)
+    # generated code must at least be spelled from non-reserved identifiers for any tree to render
+    from rules.c02 import ident_rule, holes_rule
+    _o, sites = holes_rule(ctx)
+    for x in ident_rule(ctx, sites):
+        x = dict(x)
+        x["key"] = x["key"].replace("C02.ident", "C04.syntax/ident")
+        obs.append(x)
     return obs
